@@ -307,7 +307,7 @@ class Engine:
         }
         w = {"mk": 14, "copy": 8, "stack": 6, "apply": 14, "reshape": 6, "flatten": 6, "index": 8,
              "setitem": 10, "combine": 7, "astype": 4, "setter": 5, "query": 22, "reject": 1, "drop": 3,
-             "scribble": 3}
+             "scribble": 3, "fn": 4}
         style = rng.choice(["flat", "query", "setitem", "apply", "shape"])
         if style == "shape":
             for g in ("reshape", "flatten", "index", "stack", "combine"):
@@ -566,6 +566,18 @@ class Engine:
             op["other"] = rng.choice(mates).id
         return op
 
+    FNS = ["kleinian_to_poincare", "poincare_to_kleinian", "poincare_to_halfspace", "halfspace_to_poincare",
+           "kleinian_coords", "hyperboloid_coords", "affine_coords", "projective_coords", "point_from_klein",
+           "get_point"]
+
+    def _gen_fn(self, rng, world):
+        """a module-level coordinate function called directly on an array the caller owns"""
+        n = world.cfg["n"]
+        m = rng.randint(1, 4)
+        pts = [klein_point(rng, n, 0.8) for _ in range(m)]
+        return {"op": "fn", "fn": rng.choice(self.FNS), "pts": pts,
+                "layout": rng.choice(["C", "F", "strided", "reversed"]), "twice": rng.random() < 0.5}
+
     def _gen_scribble(self, rng, world):
         if not world.buffers:
             return None
@@ -586,7 +598,8 @@ class Engine:
         k = op["op"]
         fn = getattr(self, "_do_" + k, None)
         if fn is None:
-            return "skipped:unknown-op", []
+            from .core import HarnessError
+            raise HarnessError("engine %s has no interpreter for operation %r" % (NAME, k))
         ids = [op[x] for x in ("h",) if x in op] + list(op.get("hs", [])) + \
               ([op["src"]] if op.get("src") else []) + ([op["other"]] if op.get("other") else [])
         if any(i not in world.handles for i in ids):
@@ -626,7 +639,7 @@ class Engine:
         world.last_relation = "%s:%s:%s" % (k if k != "query" else "query." + op["q"], kind, rel)
 
     # ---- buffers
-    def _buffer(self, world, bid, data, layout, dtype=np.float64):
+    def _buffer(self, world, bid, data, layout, dtype=np.float64, affine=False):
         base = np.array(data, dtype=dtype)
         if layout == "F":
             arr = np.asfortranarray(base)
@@ -639,7 +652,7 @@ class Engine:
             arr = base[..., ::-1].copy()[..., ::-1]
         else:
             arr = base
-        world.buffers[bid] = (arr, base.copy(), layout)
+        world.buffers[bid] = (arr, base.copy(), layout + ("/affine" if affine else ""))
         world.stats["buffer." + layout] += 1
         return arr
 
@@ -671,7 +684,7 @@ class Engine:
             if via == "klein" and kind != "PPoly" and kind != "HTan":
                 # Klein coordinates of the same points (a second caller buffer)
                 kl = arr[..., 1:] / arr[..., :1]
-                klb = self._buffer(world, "k:" + op["new"], kl.tolist(), op["layout"])
+                klb = self._buffer(world, "k:" + op["new"], kl.tolist(), op["layout"], affine=True)
                 pts = self.hyperbolic.Point(klb, model="klein")
                 real = cls(pts)
             elif via == "two" and kind in ("HSeg", "HTan"):
@@ -867,7 +880,7 @@ class Engine:
         try:
             if op["which"] == "klein" and h.kind in ("HPoly", "HSeg"):
                 kl = data[..., 1:] / data[..., :1]
-                arr = self._buffer(world, "t:%d" % world.steps_done, kl.tolist(), op["layout"])
+                arr = self._buffer(world, "t:%d" % world.steps_done, kl.tolist(), op["layout"], affine=True)
                 h.real.coords("klein", arr)
             else:
                 arr = self._buffer(world, "t:%d" % world.steps_done, op["data"], op["layout"])
@@ -1009,6 +1022,75 @@ class Engine:
         world.stats["probe.query_compared_with_fresh_object"] += 1
         return "ok"
 
+    def _do_fn(self, world, op, vs):
+        hyp, proj = self.hyperbolic, self.projective
+        fn = op["fn"]
+        pts = np.array(op["pts"], dtype=np.float64)
+        bid = "f:%d" % world.steps_done
+        homog = fn in ("kleinian_coords", "hyperboloid_coords", "affine_coords")
+        if homog:
+            data = np.concatenate([np.ones(pts.shape[:-1] + (1,)), pts], axis=-1) * 1.5
+            buf = self._buffer(world, bid, data.tolist(), op["layout"])
+        else:
+            buf = self._buffer(world, bid, pts.tolist(), op["layout"], affine=True)
+
+        def call():
+            if fn == "kleinian_to_poincare":
+                return hyp.kleinian_to_poincare(buf)
+            if fn == "poincare_to_kleinian":
+                return hyp.poincare_to_kleinian(buf)
+            if fn == "poincare_to_halfspace":
+                return hyp.poincare_to_halfspace(buf)
+            if fn == "halfspace_to_poincare":
+                return hyp.halfspace_to_poincare(buf)
+            if fn == "kleinian_coords":
+                return hyp.kleinian_coords(buf)
+            if fn == "hyperboloid_coords":
+                return np.array(hyp.hyperboloid_coords(buf))
+            if fn == "affine_coords":
+                return proj.affine_coords(buf, chart_index=0)
+            if fn == "projective_coords":
+                return proj.projective_coords(buf)
+            if fn == "point_from_klein":
+                return np.array(hyp.Point(buf, model="klein").proj_data)
+            return np.array(hyp.get_point(buf, model="klein").proj_data)
+        world.stats["query.fn." + fn] += 1
+        try:
+            first = np.array(call())
+            if op.get("twice"):
+                second = np.array(call())
+                if fn == "hyperboloid_coords":
+                    ok = rows_proj_equal(first.reshape(-1, first.shape[-1]), second.reshape(-1, second.shape[-1])) < 0
+                else:
+                    ok = first.shape == second.shape and np.allclose(first, second, rtol=1e-9, atol=1e-12, equal_nan=True)
+                if not ok:
+                    vs.append(viol("C11", "Q.twice", "%s(buffer) called twice on the caller's array gives two "
+                                   "different answers: %s then %s" % (fn, np.round(first, 6).tolist()[:3],
+                                                                      np.round(second, 6).tolist()[:3])))
+                    return "wrong"
+        except Exception as e:
+            world.stats["query_raised.fn." + fn] += 1
+            return "qraised:" + type(e).__name__
+        return "ok"
+
+    def _do_scribble(self, world, op, vs):
+        """the caller overwrites, in place, an array it passed to the library earlier; every object
+        built from it must be unaffected"""
+        bid = op["b"]
+        if bid not in world.buffers:
+            return "skipped:no-buffer"
+        arr, snap, layout = world.buffers[bid]
+        if arr.dtype.kind in "iu":
+            arr *= int(op["factor"])
+            arr += 1 + int(op["shift"] * 3)
+        else:
+            arr *= float(op["factor"])
+            arr += float(op["shift"])
+        world.buffers[bid] = (arr, np.array(arr), layout)
+        world.stats["probe.caller_scribbled_on_its_buffer"] += 1
+        world.nontrivial = True
+        return "ok"
+
     def _do_x_reject(self, world, op, vs):
         h = world.handles[op["h"]]
         try:
@@ -1038,7 +1120,11 @@ class Engine:
             if arr.shape != snap.shape:
                 vs.append(viol("C11", "C.buffer", "caller buffer %s changed shape" % bid))
                 return
-            i = rows_proj_equal(arr.reshape(-1, arr.shape[-1]), snap.reshape(-1, snap.shape[-1]))
+            if layout.endswith("/affine"):
+                # affine (Klein, Poincare, half-space) coordinates: any change moves the points
+                i = -1 if np.array_equal(arr, snap) else 0
+            else:
+                i = rows_proj_equal(arr.reshape(-1, arr.shape[-1]), snap.reshape(-1, snap.shape[-1]))
             if i >= 0:
                 vs.append(viol("C11", "C.buffer", "caller buffer %s (%s layout) no longer represents the same "
                                "points: row %d is %r, was %r" % (
